@@ -1,4 +1,4 @@
-//! C02 counterexample search (run after a Verus unit of C02 failed or could not decide, and in the thorough tier):
+//! C02 native search (a bounded exploration of the real crate, run on every check; it also supplies the concrete input when a Verus obligation of the property fails):
 //! on the real crate, every sequence of at most 4 pushes of A records into the answer section -- owners from three
 //! names sharing suffixes, each push either unrestricted or under a push limit that makes it fail after 1, 5 or 12
 //! more octets -- with the three name compressors and without one. The finished message has to parse back to
